@@ -249,7 +249,7 @@ fn batch(
     }
     r.digest = h;
     if c.panic_only {
-        out.retain(|x| x.0 == "set_vs_with");
+        out.retain(|x| x.0 == "set_vs_with" || x.0 == "hidden_storage");
     }
 }
 
